@@ -23,21 +23,21 @@ structure KeyState where
 
 /-! ### sorting (bytewise, as `slices.Sort` / `sort.Strings` on Go strings) -/
 
-def bytesLe : Bytes → Bytes → Bool
+def bytesLeH : Bytes → Bytes → Bool
   | [], _ => true
   | _ :: _, [] => false
-  | a :: as, b :: bs => a < b || (a == b && bytesLe as bs)
+  | a :: as, b :: bs => a < b || (a == b && bytesLeH as bs)
 
-def sortBytes (l : List Bytes) : List Bytes := l.mergeSort bytesLe
+def sortBytes (l : List Bytes) : List Bytes := l.mergeSort bytesLeH
 
 /-- `slices.Compact`: drop consecutive duplicates -/
-def compact : List Bytes → List Bytes
+def compactB : List Bytes → List Bytes
   | [] => []
   | [a] => [a]
-  | a :: b :: t => if a = b then compact (b :: t) else a :: compact (b :: t)
+  | a :: b :: t => if a = b then compactB (b :: t) else a :: compactB (b :: t)
 
 def sortKV (l : List (Bytes × Bytes)) : List (Bytes × Bytes) :=
-  l.mergeSort (fun a b => bytesLe a.1 b.1)
+  l.mergeSort (fun a b => bytesLeH a.1 b.1)
 
 /-! ### framing -/
 
@@ -61,7 +61,7 @@ def kvFields (l : List (Bytes × Bytes)) : Bytes := (l.map (fun kv => field kv.1
 def kvEnc (l : List (Bytes × Bytes)) : Bytes := u64be l.length ++ kvFields l
 
 /-- the sorted, de-duplicated input paths, as `hashTargetDefinition` and `hashInputFiles` use them -/
-def canonInputs (s : KeyState) : List Bytes := compact (sortBytes s.inputs)
+def canonInputs (s : KeyState) : List Bytes := compactB (sortBytes s.inputs)
 
 /-- byte stream hashed by `hashTargetDefinition` -/
 def enc (s : KeyState) : Bytes :=
